@@ -161,18 +161,29 @@ fn translate_select_pipeline(
     // When we have DISTINCT ON, we must have at least a wildcard in the projection
     // (PostgreSQL requires DISTINCT ON to have a non-empty SELECT list)
     // Replace NULL placeholder with wildcard if present, or add wildcard if empty
-    if matches!(distinct, Some(sql_ast::Distinct::On(_))) {
+    if let Some(sql_ast::Distinct::On(keys)) = &distinct {
+        // In a grouped SELECT a wildcard is not a grouping column (`SELECT DISTINCT ON (a) * FROM t
+        // GROUP BY a` is rejected): there the DISTINCT ON keys themselves stand in, they are grouped.
+        let grouped = pipeline
+            .iter()
+            .any(|t| matches!(t, SqlTransform::Aggregate { .. }));
+        let stand_in = || -> Vec<SelectItem> {
+            if grouped {
+                keys.iter().cloned().map(SelectItem::UnnamedExpr).collect()
+            } else {
+                vec![SelectItem::Wildcard(
+                    sql_ast::WildcardAdditionalOptions::default(),
+                )]
+            }
+        };
         if projection.len() == 1 {
             if let SelectItem::UnnamedExpr(sql_ast::Expr::Value(ref v)) = projection[0] {
                 if matches!(v.value, sql_ast::Value::Null) {
-                    projection[0] =
-                        SelectItem::Wildcard(sql_ast::WildcardAdditionalOptions::default());
+                    projection = stand_in();
                 }
             }
         } else if projection.is_empty() {
-            projection.push(SelectItem::Wildcard(
-                sql_ast::WildcardAdditionalOptions::default(),
-            ));
+            projection = stand_in();
         }
     }
 
